@@ -29,10 +29,13 @@ ASSUMPTIONS = [
 ]
 
 
+PHASE = [0.1]  # isothermal expansion in force for the case being evaluated (DT_PHASE_CHANGE option)
+
+
 def _levels_ok(rows):
     """Isothermal (<= 0.1001 K span after expansion), pairwise >= 1 K apart on the real and on the
     shifted scale, and ranked identically on both scales (so "lower grade" is unambiguous)."""
-    if any(abs(r["tsf"] - r["ttf"]) > Fr(1001, 10000) for r in rows):
+    if any(abs(r["tsf"] - r["ttf"]) > Fr(repr(PHASE[0])) + Fr(1, 10000) for r in rows):
         return False
     by_shift = sorted(rows, key=lambda r: r["tsf"])
     by_real = sorted(rows, key=lambda r: Fr(repr(float(r["t_supply"]))))
@@ -50,6 +53,11 @@ def eval_case(case) -> Outcome:
         return out
     P.classify_site(out, an)
     P.root_causes(out, an)
+    PHASE[0] = float((case.get("options") or {}).get("DT_PHASE_CHANGE", 0.1))
+    if case.get("tie"):
+        out.labels.add("utility-target-on-a-tie")
+    if case.get("glide"):
+        out.labels.add("long-glide-above-a-lower-level")
     for path, zone, c in an.zones:
         t = an.target(zone, S.DI)
         if t is None or not c.T or min(c.R) != 0:
@@ -120,9 +128,85 @@ def eval_case(case) -> Outcome:
     return out
 
 
+@st.composite
+def tie_ladder(draw, tier):
+    """Isothermal ladders whose shifted target end sits exactly on a stream bound (often the pinch) or on the
+    supply end of the next lower level.  DT_PHASE_CHANGE is 0.5 or 1.0 so that every tie is exact in binary."""
+    mx = 6 if tier == "quick" else 9
+    phase = draw(st.sampled_from([0.5, 1.0, 1.0]))
+    pal = draw(st.lists(st.integers(-40, 800).map(lambda k: k / 2), min_size=3, max_size=7, unique=True))
+    dts = st.sampled_from([0.0, 2.5, 5.0, 10.0])
+    ss = draw(G.streams(3, mx, False, "mixed", 0.0, dts=dts, pal=pal, thirds=False))
+    for s in ss:  # keep every bound on the 0.5 K grid
+        s["t_supply"], s["t_target"] = round(s["t_supply"] * 2) / 2, round(s["t_target"] * 2) / 2
+        if s["t_supply"] == s["t_target"]:
+            s["t_target"] = s["t_supply"] + 5.0
+    bounds = sorted({(b - s["dt_cont"]) if s["t_supply"] > s["t_target"] else (b + s["dt_cont"]) for s in ss for b in (s["t_supply"], s["t_target"])})
+    us = []
+    prev = None
+    for i in range(draw(st.integers(1, 3))):
+        dtu = draw(st.sampled_from([0.0, 2.5, 5.0]))
+        if prev is not None and draw(st.booleans()):
+            t = prev["t_supply"] - prev["dt_cont"] + dtu + phase  # shifted target == shifted supply of the level below
+        else:
+            t = draw(st.sampled_from(bounds)) + dtu + phase  # shifted target == a stream bound
+        u = {"name": f"HU{i + 1}", "type": "Hot", "t_supply": t, "t_target": t, "heat_flow": None, "dt_cont": dtu, "htc": 1.0, "price": 40.0, "active": True}
+        us.append(u)
+        prev = u
+    prev = None
+    for i in range(draw(st.integers(0, 3))):
+        dtu = draw(st.sampled_from([0.0, 2.5, 5.0]))
+        if prev is not None and draw(st.booleans()):
+            t = prev["t_supply"] + prev["dt_cont"] - dtu - phase
+        else:
+            t = draw(st.sampled_from(bounds)) - dtu - phase
+        u = {"name": f"CU{i + 1}", "type": "Cold", "t_supply": t, "t_target": t, "heat_flow": None, "dt_cont": dtu, "htc": 1.0, "price": 10.0, "active": True}
+        us.append(u)
+        prev = u
+    return {"streams": ss, "utilities": us, "options": {"DT_PHASE_CHANGE": phase}, "tie": True}
+
+
+@st.composite
+def glide_ladder(draw, tier):
+    """Three levels on one side: a near-isothermal level close to the pinch, a level with a long glide whose return
+    end lies inside the process range above it, and a top level; demand concentrated high up.  Mirrored half the time."""
+    base = float(draw(st.integers(2, 12)) * 10)
+    cuts = [base]
+    for _ in range(draw(st.integers(2, 4))):
+        cuts.append(cuts[-1] + draw(st.sampled_from([20.0, 40.0, 60.0, 120.0])))
+    ss = []
+    for i, (a, b) in enumerate(zip(cuts, cuts[1:])):
+        ss.append({"zone": "P1", "name": f"C{i + 1}", "t_supply": a, "t_target": b, "heat_flow": draw(st.sampled_from([100.0, 120.0, 600.0, 1800.0, 4000.0])), "dt_cont": draw(st.sampled_from([0.0, 5.0])), "htc": 1.0})
+    for i in range(draw(st.integers(0, 2))):
+        hi = draw(st.sampled_from(cuts[:-1])) + draw(st.sampled_from([0.0, 10.0, 30.0]))
+        ss.append({"zone": "P1", "name": f"H{i + 1}", "t_supply": hi, "t_target": hi - draw(st.sampled_from([20.0, 50.0, 70.0])), "heat_flow": draw(st.sampled_from([50.0, 300.0, 700.0])), "dt_cont": draw(st.sampled_from([0.0, 5.0])), "htc": 1.0})
+    top = cuts[-1]
+    t1 = draw(st.sampled_from(cuts[1:-1])) + draw(st.sampled_from([5.0, 10.0, 20.0]))
+    t2r = t1 + draw(st.sampled_from([10.0, 30.0, 50.0]))
+    t2s = max(t2r + draw(st.sampled_from([40.0, 90.0, 150.0])), top + 20.0)
+    dtu = draw(st.sampled_from([0.0, 5.0]))
+    us = [
+        {"name": "LPS", "type": "Hot", "t_supply": t1, "t_target": t1 - 1.0, "heat_flow": None, "dt_cont": dtu, "htc": 1.0, "price": 10.0, "active": True},
+        {"name": "OIL", "type": "Hot", "t_supply": t2s, "t_target": t2r, "heat_flow": None, "dt_cont": dtu, "htc": 1.0, "price": 20.0, "active": True},
+        {"name": "HPS", "type": "Hot", "t_supply": t2s + 20.0, "t_target": t2s + 19.0, "heat_flow": None, "dt_cont": dtu, "htc": 1.0, "price": 40.0, "active": True},
+        {"name": "CW", "type": "Cold", "t_supply": base - 60.0, "t_target": base - 55.0, "heat_flow": None, "dt_cont": dtu, "htc": 1.0, "price": 5.0, "active": True},
+    ]
+    if draw(st.booleans()):
+        us.pop(2)
+    case = {"streams": ss, "utilities": draw(st.permutations(us)), "glide": True}
+    if draw(st.booleans()):  # mirror image: the same structure on the cold side
+        for x in case["streams"] + case["utilities"]:
+            x["t_supply"], x["t_target"] = -x["t_supply"], -x["t_target"]
+        for u in case["utilities"]:
+            u["type"] = {"Hot": "Cold", "Cold": "Hot"}[u["type"]]
+    return case
+
+
 def strategy(tier):
     mx = 8 if tier == "quick" else 12
     return st.one_of(
+        tie_ladder(tier),
+        glide_ladder(tier),
         G.problem(min_streams=3, max_streams=mx, shape="mixed", max_hot=4, max_cold=4, isothermal_utils=True, max_both=0),
         G.problem(min_streams=3, max_streams=mx, shape="mixed", max_hot=4, max_cold=4, isothermal_utils=True),
         G.problem(min_streams=3, max_streams=mx, shape="mixed", max_hot=4, max_cold=4),
@@ -131,4 +215,4 @@ def strategy(tier):
 
 
 PARTS = [Part("service", eval_case, {"quick": 1000, "thorough": 25000}, strategy=strategy, min_nontrivial={"quick": 150, "thorough": 3000})]
-MIN_SHARE = {"service": {"hot-lp-applicable": 0.15, "cold-lp-applicable": 0.15, "hot-level-inside-range": 0.1, "cold-level-inside-range": 0.1, "glide-utility": 0.1}}
+MIN_SHARE = {"service": {"utility-target-on-a-tie": 0.1, "hot-lp-applicable": 0.15, "cold-lp-applicable": 0.15, "hot-level-inside-range": 0.1, "cold-level-inside-range": 0.1, "glide-utility": 0.1}}
